@@ -185,5 +185,135 @@ def task_der_XH_HH(ctx):
     _der_task(ctx, {"XH": True, "HH": True})
 
 
-TASKS_QUICK = ["chain_lemma", "der_XX_x", "der_XX_y", "der_XX_z", "der_XH_HH"]
+def replay_clamp(model):
+    """Real code: PM3 CH3Cl (g_pp - g_p2 of Cl is below 0.2 eV, so the energy path clamps h_pp to 0.1): analytical force
+    vs central difference of the real total energy."""
+    import torch
+    from seqm.seqm_functions.constants import Constants
+    from seqm.Molecule import Molecule
+    from seqm.ElectronicStructure import Electronic_Structure
+
+    torch.set_default_dtype(torch.float64)
+    species = torch.tensor([[17, 6, 1, 1, 1]])
+    coords = torch.tensor([[[0.0, 0.0, 1.80], [0.02, -0.01, 0.0], [1.03, 0.05, -0.35], [-0.51, 0.90, -0.36], [-0.52, -0.88, -0.33]]])
+
+    def energy(c, analytical):
+        params = {"method": "PM3", "scf_eps": 1e-10, "scf_converger": [2, 0.0], "sp2": [False, 1e-5], "elements": [0, 1, 6, 17], "learned": [], "pair_outer_cutoff": 1e10, "eig": True}
+        if analytical:
+            params["analytical_gradient"] = [True]
+        mol = Molecule(Constants(), params, c.clone(), species)
+        Electronic_Structure(params)(mol)
+        return mol
+
+    m = energy(coords, True)
+    fz = float(m.force[0, 0, 2])
+    d = 1e-4
+    cp, cm = coords.clone(), coords.clone()
+    cp[0, 0, 2] += d
+    cm[0, 0, 2] -= d
+    fd = -(float(energy(cp, False).Etot[0]) - float(energy(cm, False).Etot[0])) / (2 * d)
+    return {"reproduced": bool(abs(fz - fd) > 1e-3), "molecule": "PM3 CH3Cl", "analytical_Fz(Cl)_eV_per_A": fz, "minus_central_difference_of_Etot": fd}
+
+
+def task_prologue(ctx):
+    """O3 (relational): the multipole parameters w_der hands to der_TETCILF are those two_elec_two_center_int hands to
+    rotate for the energy (dd, qq, rho0, rho1, rho2 per atom)."""
+    from contracts.md_common import Obj
+    from contracts.es_common import tore_table
+
+    M2 = "seqm.seqm_functions.two_elec_two_center_int"
+    AG = "seqm.seqm_functions.anal_grad"
+    fe = ctx.under_contract(M2 + ":two_elec_two_center_int", stubs=["rotate", "additive_term_rho1/2", "dd_qq", "POIJ"])
+    fw = ctx.under_contract(AG + ":w_der", stubs=["der_TETCILF", "additive_term_rho1/2", "dd_qq"])
+    cap = {}
+
+    def uf_tensor(name, *args):
+        n = len(args[0])
+        return st.tensor([Sym(E.uf(name, tuple(a.a[k].n for a in args), E.R)) for k in range(n)]) if n else st.zeros(0)
+
+    rho1 = Obj(apply=lambda hsp, dd: uf_tensor("rho1", hsp, dd))
+    rho2 = Obj(apply=lambda hpp, qq: uf_tensor("rho2", hpp, qq))
+
+    def ddqq(qn, zs, zp):
+        return uf_tensor("dd", qn, zs, zp), uf_tensor("qq", qn, zs, zp)
+
+    def rotate_stub(ni, nj, xij, rij, tore, da, db, qa, qb, dpa, dpb, dsa, dsb, dda, ddb, rho0a, rho0b, rho1a, rho1b, rho2a, rho2b, *rest, **kw):
+        cap["energy"] = dict(da=da, db=db, qa=qa, qb=qb, rho0a=rho0a, rho0b=rho0b, rho1a=rho1a, rho1b=rho1b, rho2a=rho2a, rho2b=rho2b)
+        n = len(ni)
+        return st.zeros(n, 10, 10), st.zeros(n, 4, 4), st.zeros(n, 4, 4), st.zeros(0, 4), st.zeros(n, 22)
+
+    def der_stub(w_x, ni, nj, xij, Xij, r0, da0, db0, qa0, qb0, rho0a, rho0b, rho1a, rho1b, rho2a, rho2b, riXH, ri):
+        cap["deriv"] = dict(da=da0, db=db0, qa=qa0, qb=qb0, rho0a=rho0a, rho0b=rho0b, rho1a=rho1a, rho1b=rho1b, rho2a=rho2a, rho2b=rho2b)
+
+    Z = st.tensor([8, 6])
+    names = ["zetas", "zetap", "gss", "gpp", "gp2", "hsp"]
+    par = {n: st.symbolic((2,), n) for n in names}
+    const = Obj(tore=tore_table(), qn=st.tensor([0.0, 1, 1, 2, 2, 2, 2, 2, 2, 2]), qnD_int=st.zeros(10, dtype=st.int64))
+    idxi, idxj = st.tensor([0]), st.tensor([1])
+    ni, nj = st.tensor([8]), st.tensor([6])
+    xij, rij = st.symbolic((1, 3), "x"), st.symbolic((1,), "rij")
+    zeros = st.zeros(2)
+
+    def thunk():
+        fe(const, idxi, idxj, ni, nj, xij, rij, Z, par["zetas"], par["zetap"], zeros, zeros, zeros, zeros, par["gss"], par["gpp"], par["gp2"], par["hsp"], zeros, zeros, zeros, None, None, "AM1")
+        fw(const, Z, const.tore, ni, nj, st.zeros(1, 3, 10, 10), rij, xij, st.symbolic((1, 3), "X"), idxi, idxj, par["gss"], par["gpp"], par["gp2"], par["hsp"], par["zetas"], par["zetap"], None, st.zeros(1, 22))
+        return dict(cap)
+
+    stubs = {M2 + ":rotate": rotate_stub, M2 + ":additive_term_rho1": rho1, M2 + ":additive_term_rho2": rho2, M2 + ":dd_qq": ddqq,
+             M2 + ":POIJ": lambda l, d, fg: st.zeros(len(d)) if isinstance(d, st.T) else st.zeros(len(fg)),
+             AG + ":der_TETCILF": der_stub, AG + ":additive_term_rho1": rho1, AG + ":additive_term_rho2": rho2, AG + ":dd_qq": ddqq}
+    ex = ctx.explore(thunk, stubs=stubs, constants=CONSTS, name="prologue")
+    ok = [p for p in ex.paths if p.raised is None]
+    for p in ex.paths:
+        if p.raised is not None:
+            ctx.fail("raises@p%d" % p.path_id, repr(p.raised) + p.notes.get("traceback", "")[-800:])
+    for p in ok:
+        c = p.value
+        for key in ("da", "db", "qa", "qb", "rho0a", "rho0b", "rho1a", "rho1b", "rho2a", "rho2b"):
+            ctx.prove("same-%s-for-energy-and-derivative@p%d" % (key, p.path_id), c["energy"][key].a[0] == c["deriv"][key].a[0], pc=p.pc,
+                      replay=replay_clamp, classify=lambda m, r: "hpp-clamp-missing-in-derivative-prologue")
+    ctx.assume_note("rho1/rho2 secant solvers, dd_qq and POIJ are uninterpreted functions of their arguments (same function in both call sites)")
+
+
+def task_core_core_der(ctx):
+    """O2: core_core_der = d/dX_i of pair_nuclear_energy (MNDO, AM1, PM3; N-H/O-H form; Gaussians), given the callee
+    contract w_x[:, :, 0, 0] = d(ss|ss)/dX_i (task der_*)."""
+    from contracts.C06_nddo_model import _pair_setup
+    from contracts.md_common import Obj
+
+    fe = ctx.under_contract("seqm.seqm_functions.energy:pair_nuclear_energy")
+    fd = ctx.under_contract("seqm.seqm_functions.anal_grad:core_core_der")
+    a0 = CONSTS["a0"]
+    for method, ng in (("MNDO", 1), ("AM1", 4), ("PM3", 2)):
+        Z, idxi, idxj, ni, nj, const, alpha, K, L, M, rij, gam = _pair_setup(ng)
+        xij = st.symbolic((5, 3), "x")
+        WX = st.symbolic((5, 3), "dgam")  # d(ss|ss)/dX_i
+
+        def thunk():
+            pars = (alpha,) if method == "MNDO" else (alpha, K, L, M)
+            En = fe(None, const, 1, ni, nj, st.tensor(idxi), st.tensor(idxj), rij, None, None, None, None, gam=gam, method=method, parameters=pars)
+            mol = Obj(ni=ni, nj=nj, idxi=st.tensor(idxi), idxj=st.tensor(idxj), xij=xij, rij=rij, const=const)
+            w_x = st.zeros(5, 3, 10, 10)
+            for k in range(5):
+                for c in range(3):
+                    w_x.a[k, c, 0, 0] = WX.a[k, c]
+            pars2 = (alpha.clone(),) if method == "MNDO" else (alpha.clone(), K, L, M)
+            g = fd(mol, gam, w_x, method, pars2)
+            return En, g
+
+        ex = ctx.explore(thunk, constants=CONSTS, name="core_core_der " + method)
+        if len(ex.paths) != 1 or ex.paths[0].raised is not None:
+            ctx.error(method + ".paths", "%r %s" % ([p.raised for p in ex.paths], ex.paths[0].notes.get("traceback", "")[-600:] if ex.paths else ""))
+            continue
+        En, g = ex.paths[0].value
+        for k in range(5):
+            dEdr = Sym(E.diff(En.a[k].n, rij.a[k].n))
+            dEdg = Sym(E.diff(En.a[k].n, gam.a[k].n))
+            for c in range(3):
+                want = dEdr * (-xij.a[k, c] / a0) + dEdg * WX.a[k, c]
+                ctx.prove_eq("%s.pair[%d-%d].dE/dX_i[%d]" % (method, Z[idxi[k]], Z[idxj[k]], c), g.a[k, c], want)
+    ctx.assume_note("chain rule: r_ij = |X_j - X_i|/a0 and x_ij = (X_j - X_i)/|X_j - X_i| give d r_ij/d X_i = -x_ij/a0 (task chain_lemma)")
+
+
+TASKS_QUICK = ["chain_lemma", "core_core_der", "prologue", "der_XX_x", "der_XX_y", "der_XX_z", "der_XH_HH"]
 TASKS_THOROUGH = TASKS_QUICK
